@@ -159,6 +159,87 @@ pub fn run_fusedev<F: FileSystem + Sync>(
     aliased: bool,
     vu: Option<&mut dyn FsCacheReqHandler>,
 ) -> Outcome {
+    run_fusedev_with(sock, req, cap, aliased, move |reader, writer| srv.handle_message(reader, writer, vu, None).map_err(|e| format!("{:?}", e)))
+}
+
+/// What stands in for /dev/fuse: a descriptor the crate writes replies to and a way to collect them.
+#[cfg(not(miri))]
+pub trait Sink {
+    fn fd(&self) -> std::os::unix::io::RawFd;
+    fn drain(&self) -> Vec<Vec<u8>>;
+}
+
+#[cfg(not(miri))]
+impl Sink for SeqSock {
+    fn fd(&self) -> std::os::unix::io::RawFd {
+        self.wr
+    }
+    fn drain(&self) -> Vec<Vec<u8>> {
+        SeqSock::drain(self)
+    }
+}
+
+/// A memfd as the device: needed where the crate uses pwrite() (the asynchronous writer), which a
+/// socket refuses. Write-call boundaries are not observable here; drain() returns the concatenation
+/// of everything written as one record (none when nothing was written).
+#[cfg(not(miri))]
+pub struct FileSink {
+    f: std::fs::File,
+}
+
+#[cfg(not(miri))]
+impl FileSink {
+    pub fn new() -> FileSink {
+        use std::os::unix::io::FromRawFd;
+        let fd = unsafe { libc::memfd_create(b"vkit-sink\0".as_ptr() as *const libc::c_char, 0) };
+        assert!(fd >= 0, "memfd_create");
+        // O_APPEND: every write()/writev()/pwrite() lands behind the previous one whatever its offset,
+        // so the content is the concatenation of all write calls (a second write cannot hide the first)
+        unsafe { libc::fcntl(fd, libc::F_SETFL, libc::O_APPEND) };
+        FileSink { f: unsafe { std::fs::File::from_raw_fd(fd) } }
+    }
+}
+
+#[cfg(not(miri))]
+impl Sink for FileSink {
+    fn fd(&self) -> std::os::unix::io::RawFd {
+        use std::os::unix::io::AsRawFd;
+        self.f.as_raw_fd()
+    }
+    fn drain(&self) -> Vec<Vec<u8>> {
+        use std::os::unix::fs::FileExt;
+        use std::os::unix::io::AsRawFd;
+        let len = self.f.metadata().map(|m| m.len()).unwrap_or(0) as usize;
+        let mut v = vec![0u8; len];
+        let mut got = 0;
+        while got < len {
+            match self.f.read_at(&mut v[got..], got as u64) {
+                Ok(0) | Err(_) => break,
+                Ok(n) => got += n,
+            }
+        }
+        v.truncate(got);
+        unsafe {
+            libc::ftruncate(self.f.as_raw_fd(), 0);
+            libc::lseek(self.f.as_raw_fd(), 0, libc::SEEK_SET);
+        }
+        if v.is_empty() {
+            vec![]
+        } else {
+            vec![v]
+        }
+    }
+}
+
+/// One request over the /dev/fuse transport, the handler call supplied by the caller.
+#[cfg(not(miri))]
+pub fn run_fusedev_with<K: Sink>(
+    sock: &K,
+    req: &[u8],
+    cap: usize,
+    aliased: bool,
+    call: impl for<'a> FnOnce(Reader<'a, ()>, Writer<'a, ()>) -> Result<usize, String>,
+) -> Outcome {
     // arena: [guard][req or shared buf][guard][reply][guard]
     let a_len = if aliased { req.len().max(cap) } else { req.len() };
     let b_len = if aliased { 0 } else { cap };
@@ -181,11 +262,11 @@ pub fn run_fusedev<F: FileSystem + Sync>(
         } else {
             unsafe { std::slice::from_raw_parts_mut(base.add(b_off), b_len) }
         };
-        let fd = sock.wr;
+        let fd = sock.fd();
         ret = guarded(move || {
             let reader: Reader<'_, ()> = Reader::from_fuse_buffer(FuseBuf::new(rbuf)).unwrap();
             let writer = FuseDevWriter::<()>::new(fd, wbuf).unwrap();
-            srv.handle_message(reader, Writer::FuseDev(writer), vu, None).map_err(|e| format!("{:?}", e))
+            call(reader, Writer::FuseDev(writer))
         });
     }
     let records = sock.drain();
@@ -449,6 +530,14 @@ impl VMem {
 
 /// One request over the virtio-fs transport.
 pub fn run_virtio<F: FileSystem + Sync>(srv: &Server<F>, shape: &VShape, req: &[u8], vu: Option<&mut dyn FsCacheReqHandler>) -> Outcome {
+    run_virtio_with(shape, req, move |reader, writer| srv.handle_message(reader, writer, vu, None).map_err(|e| format!("{:?}", e)))
+}
+
+/// Bitmap slice type of the guest memory the harness uses.
+pub type VBS<'a> = vm_memory::bitmap::BS<'a, AtomicBitmap>;
+
+/// One request over the virtio-fs transport, the handler call supplied by the caller.
+pub fn run_virtio_with(shape: &VShape, req: &[u8], call: impl for<'a> FnOnce(Reader<'a, VBS<'a>>, Writer<'a, VBS<'a>>) -> Result<usize, String>) -> Outcome {
     let mut vm = VMem::new(shape);
     vm.place_request(req);
     let descs = vm.chain_descs();
@@ -473,7 +562,7 @@ pub fn run_virtio<F: FileSystem + Sync>(srv: &Server<F>, shape: &VShape, req: &[
     let ret = guarded(move || {
         let reader = Reader::from_descriptor_chain(mem_ref, chain.clone()).map_err(|e| format!("reader: {:?}", e))?;
         let writer = VirtioFsWriter::new(mem_ref, chain).map_err(|e| format!("writer: {:?}", e))?;
-        srv.handle_message(reader, Writer::VirtioFs(writer), vu, None).map_err(|e| format!("{:?}", e))
+        call(reader, Writer::VirtioFs(writer))
     });
     let dirty = vm.dirty_pages();
     let d = vm.diff();
